@@ -461,6 +461,96 @@ func lexicalGuards(pm map[ast.Node]ast.Node, n ast.Node, stop ast.Node) []Atom {
 	return out
 }
 
+// earlyExitGuards adds to lexicalGuards what earlier statements of the enclosing blocks establish by
+// leaving: after `if c { …; return }` (or continue, break, goto, panic as the last statement, no else) c is
+// false. The operands of c must not be assigned between that if and n.
+func earlyExitGuards(info *types.Info, pm map[ast.Node]ast.Node, n ast.Node, stop ast.Node) []Atom {
+	out := lexicalGuards(pm, n, stop)
+	leaves := func(b *ast.BlockStmt) bool {
+		if b == nil || len(b.List) == 0 {
+			return false
+		}
+		switch x := b.List[len(b.List)-1].(type) {
+		case *ast.ReturnStmt:
+			return true
+		case *ast.BranchStmt:
+			return x.Tok != token.FALLTHROUGH
+		case *ast.ExprStmt:
+			if call, ok := x.X.(*ast.CallExpr); ok {
+				if id, ok := call.Fun.(*ast.Ident); ok && id.Name == "panic" {
+					_, isB := info.Uses[id].(*types.Builtin)
+					return isB
+				}
+			}
+		}
+		return false
+	}
+	child := n
+	for cur := pm[n]; cur != nil && cur != stop; child, cur = cur, pm[cur] {
+		var list []ast.Stmt
+		switch x := cur.(type) {
+		case *ast.BlockStmt:
+			list = x.List
+		case *ast.CaseClause:
+			list = x.Body
+		default:
+			continue
+		}
+		at := -1
+		for i, st := range list {
+			if ast.Node(st) == child {
+				at = i
+			}
+		}
+		for i := 0; i < at; i++ {
+			ifs, ok := list[i].(*ast.IfStmt)
+			if !ok || ifs.Else != nil || ifs.Init != nil || !leaves(ifs.Body) {
+				continue
+			}
+			// nothing the condition reads is written in between
+			reads := map[types.Object]bool{}
+			ast.Inspect(ifs.Cond, func(m ast.Node) bool {
+				if id, ok := m.(*ast.Ident); ok {
+					if o := info.Uses[id]; o != nil {
+						reads[o] = true
+					}
+				}
+				return true
+			})
+			written := false
+			for _, st := range list[i+1 : at] {
+				ast.Inspect(st, func(m ast.Node) bool {
+					switch y := m.(type) {
+					case *ast.AssignStmt:
+						for _, l := range y.Lhs {
+							if root, _, ok := accessPath(info, l); ok && reads[root] {
+								written = true
+							} else if o := objOf(info, l); o != nil && reads[o] {
+								written = true
+							}
+						}
+					case *ast.IncDecStmt:
+						if o := objOf(info, y.X); o != nil && reads[o] {
+							written = true
+						}
+					case *ast.UnaryExpr:
+						if y.Op == token.AND {
+							if o := objOf(info, y.X); o != nil && reads[o] {
+								written = true
+							}
+						}
+					}
+					return true
+				})
+			}
+			if !written {
+				out = append(out, implied(ifs.Cond, nil, false)...)
+			}
+		}
+	}
+	return out
+}
+
 // loopHead returns the head block (condition re-evaluation point) of a range
 // or for statement.
 func (f *Flow) loopHead(loop ast.Stmt) *cfg.Block {
